@@ -2,6 +2,9 @@ package zzverifctl
 
 import (
 	"net/http"
+	"slices"
+	"sort"
+	"strings"
 	"sync"
 )
 
@@ -107,4 +110,22 @@ func Good_E6Rclosureshared_local(params ...string) func(string) []string {
 		opts = append(opts, extra)
 		return opts
 	}
+}
+
+// the seeded C20-d shape: an in-place library mutator applied to a slice-typed value receiver
+type e6List []string
+
+func (s e6List) Bad_E6Rparamslice_receiver_deletefunc() string {
+	s = slices.DeleteFunc(s, func(e string) bool { return e == "" })
+	return strings.Join(s, " ")
+}
+
+func (s e6List) Good_E6Rparamslice_receiver_clone() string {
+	c := slices.DeleteFunc(slices.Clone(s), func(e string) bool { return e == "" })
+	return strings.Join(c, " ")
+}
+
+func Bad_E6Rparamslice_sorted(keys []string) []string {
+	sort.Strings(keys)
+	return keys
 }
